@@ -18,6 +18,27 @@ THOROUGH = {"C21": ["P", "Q", "A", "M", "T"], "C22": ["P", "Q", "A", "M", "T", "
 RACES = {"P2": ["X,Y", "Y,X"], "P": ["X,Y", "Y,X", "Y,Z"], "Q": ["Y,W"], "A": ["X,Y", "Y,X"], "M": ["X,Y", "Y,X"], "T": ["Y,W"]}
 
 
+UNLOCKED = {"P2", "P", "Q", "M", "A"}      # scenarios whose snapshot X is of the consensus class
+
+
+def in_window(w):
+    """the walk writes another snapshot between the write of consensus snapshot X and X's record"""
+    inside = False
+    for e in w:
+        o = e["o"]
+        if o.get("a") in ("Crash", "Restart"):
+            inside = False
+        if o.get("a") != "Step":
+            continue
+        if o["s"] == "X" and o["call"] == "WriteSnapshot":
+            inside = True
+        elif o["s"] == "X" and o["call"] == "WriteConsensusSnapshot":
+            inside = False
+        elif inside and o["call"] == "WriteSnapshot":
+            return True
+    return False
+
+
 def known_set(ctx):
     ids = {k["id"] for k in ctx.known()}
     return ids
@@ -61,9 +82,14 @@ def run(ctx, args, race_only=False):
         ctx.exhaustive = True
     # non-vacuity: without the known findings the design-level invariants are violated (the model
     # reaches the states the findings describe)
-    if all_known and not race_only:
+    if not race_only:
         if "C21-1" in all_known:
             ctx.tlc_mc(d, "MC_Node.tla", "MC_Node_P2_None.cfg", workers=4, timeout=600, expect_violation="C21Inv", count=False)
+        else:
+            # the consensus record written under the topology lock is what keeps C21: the same model with the
+            # record written after the lock was released (LockedMarker = FALSE) loses the marker
+            ctx.tlc_mc(d, "MC_Node.tla", "MC_Node_P2_Unlocked.cfg", workers=4, timeout=600, expect_violation="C21Inv", count=False)
+    if all_known and not race_only:
         if "C22-1" in all_known:
             ctx.tlc_mc(d, "MC_Node.tla", "MC_Node_A_None.cfg", workers=4, timeout=600, expect_violation="Inv", count=False)
     # ---- E1
@@ -80,6 +106,18 @@ def run(ctx, args, race_only=False):
                 ws = ws[:45]
             for w in ws:
                 walks.append({"scn": sc, "steps": [e["o"] for e in w]})
+        if not race_only and sc in UNLOCKED and ctx.pid in ("C21", "C35"):
+            # behaviours of the design WITHOUT the lock around the consensus record: they try to write another
+            # chain's snapshot between a consensus snapshot and its record. The real node must make that
+            # handler wait (event Blocked); if it does not, the behaviour goes on to the stop and restart.
+            edges = ctx.tlc_edges(d, "MC_Node.tla", "Gen_Node_%s_Unlocked.cfg" % sc)
+            ws = [w for w in build_walks(edges, rng=rng, n_random=(60 if quick else 400), depth=30, maxlen=36)
+                  if in_window(w)]
+            rng.shuffle(ws)
+            ws = ws[:(40 if quick else 400)]
+            ctx.cov["unlocked_window_walks_" + sc] = len(ws)
+            for w in ws:
+                walks.append({"scn": sc, "variant": True, "steps": [e["o"] for e in w]})
         for pair in RACES.get(sc, []):
             walks.append({"scn": sc, "steps": [{"a": "Race", "s": pair}, {"a": "Restart"}]})
     ctx.log("walks: %d" % len(walks))
